@@ -399,6 +399,7 @@ func (env *LEnv) load(ctx context.Context, exprs []*LVal) *LVal {
 		// This should be fine as packages can't be deleted.  The runtime
 		// registry should definitely still contain currPkg.
 		env.Runtime.Package = currPkg
+		verifEv(env.Runtime.Stack, "pkg", 2, 0, "", currPkg.Name)
 	}()
 
 	ret := Nil()
@@ -1093,6 +1094,7 @@ func (env *LEnv) checkLimits(ctx context.Context) *LVal {
 func (env *LEnv) checkLimitsSlow(ctx context.Context) *LVal {
 	r := env.Runtime
 	r.steps++
+	verifEv(r.Stack, "step", int(r.steps), 0, "", "")
 	if r.maxSteps > 0 && r.steps > r.maxSteps {
 		return env.ErrorConditionf(CondStepLimitExceeded,
 			"step limit exceeded (%d steps)", r.maxSteps)
@@ -1137,13 +1139,16 @@ func (env *LEnv) Eval(v *LVal) *LVal {
 // won't work without this unquoting.
 func (env *LEnv) eval(ctx context.Context, v *LVal) (result *LVal) {
 	env.Runtime.evalNesting++
+	verifEv(env.Runtime.Stack, "nest+", env.Runtime.evalNesting, 0, "", "")
 	defer func() {
 		env.Runtime.evalNesting--
+		verifEv(env.Runtime.Stack, "nest-", env.Runtime.evalNesting, 0, "", "")
 		if r := recover(); r != nil {
 			// Ownership violations (elpscheck builds only) must stay hard
 			// panics: re-panic before the conversion below can launder the
 			// finding into a catchable LError.  No-op in release builds.
 			rethrowOwnershipViolation(r)
+			verifEv(env.Runtime.Stack, "panic", 0, 0, "", "")
 			// Tag the error with CondInternalPanic so it is distinguishable
 			// from a lisp-level error: a panic is a host-code bug, and
 			// ignore-errors / catch-all handler-bind must not silently
@@ -1238,6 +1243,7 @@ eval:
 			// A macro was just expanded and returned an unevaluated
 			// expression.  We have to evaluate the result before we return.
 			macroDepth++
+			verifEv(env.Runtime.Stack, "mexp", macroDepth, 0, "", "")
 			if macroDepth > env.Runtime.MaxMacroExpansions() {
 				return env.Errorf("macro expansion depth exceeded (%d expansions)", macroDepth)
 			}
@@ -1348,10 +1354,12 @@ func (env *LEnv) macroCall(ctx context.Context, fun, args *LVal) *LVal {
 		return env.Error(err)
 	}
 	defer env.Runtime.Stack.Pop()
+	verifEv(env.Runtime.Stack, "push", 0, 0, fun.FID(), "macro")
 	// Macros can't participate in tail-recursion optimization at all.  Enable
 	// the TROBlock on the stack fram so TerminalFID never seeks past the
 	// macro's callsite.
 	env.Runtime.Stack.Top().TROBlock = true
+	verifEv(env.Runtime.Stack, "tro", 0, 0, "", "")
 
 	r := env.call(ctx, fun, args)
 	if r == nil {
@@ -1414,6 +1422,7 @@ func (env *LEnv) specialOpCall(ctx context.Context, fun, args *LVal) *LVal {
 		return env.Error(err)
 	}
 	defer env.Runtime.Stack.Pop()
+	verifEv(env.Runtime.Stack, "push", 0, 0, fun.FID(), "op")
 
 	// Special functions in general cannot be candidates for tail-recursion
 	// optimization because they receive unevaluated arguments.  As such,
@@ -1435,9 +1444,11 @@ callf:
 	if r.Type == LMarkTailRec {
 		// Tail recursion optimization is occurring.
 		if decrementMarkTailRec(r) {
+			verifEv(env.Runtime.Stack, "dec", r.Cells[0].Int, 0, "", "op")
 			top := env.Runtime.Stack.Top()
 			top.HeightLogical += r.tailRecElided()
 			top.TailIterations++
+			verifEv(env.Runtime.Stack, "iter", int(top.TailIterations), top.HeightLogical, "", verifBool(top.Terminal))
 			err := env.Runtime.Stack.CheckTailCall()
 			if err != nil {
 				return env.Error(err)
@@ -1448,6 +1459,7 @@ callf:
 			fun, args = extractMarkTailRec(r)
 			goto callf
 		}
+		verifEv(env.Runtime.Stack, "dec", r.Cells[0].Int, 0, "", "op")
 		return r
 	}
 
@@ -1561,8 +1573,10 @@ func (env *LEnv) funCall(ctx context.Context, fun, args *LVal) *LVal {
 		return env.Error(err)
 	}
 	defer env.Runtime.Stack.Pop()
+	verifEv(env.Runtime.Stack, "push", 0, 0, fun.FID(), "fun")
 
 	if npop > 0 {
+		verifEv(env.Runtime.Stack, "mark", npop, 0, fun.FID(), "")
 		return markTailRec(npop, fun, args)
 	}
 
@@ -1578,10 +1592,12 @@ callf:
 	if r.Type == LMarkTailRec {
 		// Tail recursion optimization is occurring.
 		done := decrementMarkTailRec(r)
+		verifEv(env.Runtime.Stack, "dec", r.Cells[0].Int, 0, "", "fun")
 		if done {
 			top := env.Runtime.Stack.Top()
 			top.HeightLogical += r.tailRecElided()
 			top.TailIterations++
+			verifEv(env.Runtime.Stack, "iter", int(top.TailIterations), top.HeightLogical, "", verifBool(top.Terminal))
 			err := env.Runtime.Stack.CheckTailCall()
 			if err != nil {
 				return env.Error(err)
@@ -1636,6 +1652,8 @@ func (env *LEnv) evalSExprCells(ctx context.Context, s *LVal) *LVal {
 		// function.
 		if env.Runtime.Stack.Top().Terminal {
 			env.Runtime.Stack.Top().Terminal = false
+			verifEv(env.Runtime.Stack, "term", 0, 0, "", "cells")
+			defer func() { verifEv(env.Runtime.Stack, "term", 1, 0, "", "cells") }()
 			defer func() { env.Runtime.Stack.Top().Terminal = true }()
 		}
 	}
@@ -1719,6 +1737,7 @@ func (env *LEnv) call(ctx context.Context, fun *LVal, args *LVal) *LVal {
 		}
 		if val.Type == LMarkTerminal {
 			env.Runtime.Stack.Top().Terminal = true
+			verifEv(env.Runtime.Stack, "term", 1, 0, "", "builtin")
 			termEnv := val.Native.(*LEnv)
 			termEnv.evalCtx = ctx
 			return termEnv.eval(ctx, val.Cells[0])
@@ -1739,8 +1758,10 @@ func (env *LEnv) call(ctx context.Context, fun *LVal, args *LVal) *LVal {
 		inner := env.Runtime.Registry.packages[pkg]
 		if inner != nil {
 			env.Runtime.Package = inner
+			verifEv(env.Runtime.Stack, "pkg", 0, 0, outer.Name, inner.Name)
 			defer func() {
 				env.Runtime.Package = outer
+				verifEv(env.Runtime.Stack, "pkg", 1, 0, "", outer.Name)
 			}()
 		}
 	}
@@ -1758,6 +1779,7 @@ func (env *LEnv) call(ctx context.Context, fun *LVal, args *LVal) *LVal {
 	}
 	if !fun.IsMacro() {
 		env.Runtime.Stack.Top().Terminal = true
+		verifEv(env.Runtime.Stack, "term", 1, 0, "", "body")
 	}
 	return fenv.eval(ctx, body[len(body)-1])
 }
